@@ -12,6 +12,15 @@ TRUST = ('Trusted base: rustc nightly THIR/MIR for this source (same cfgs as the
          'the evidence file.')
 
 CHECKS = {
+    'C18': {
+        'technique': 'lock-region analysis over lexical guard live ranges: effect census under write guards, transitive acquires() summary for re-entrancy, query-event/guard matching for check-then-act, await census under guards; type-level compile-fail witness (E0596) with a compiling twin in the thorough tier',
+        'level': ('Decides the lock discipline that makes each handler one atomic step: state reachable only through the RwLock, '
+                  'every effect under a write guard, no acquisition while a guard is held (deadlock freedom of the single lock), every '
+                  'presence fact an effect relies on queried under the same guard, one task per connection / one event per iteration / '
+                  'in-order buffered output / single queue consumer, no I/O await under the lock. Linearizability of arbitrary schedules '
+                  'as such is NOT decided.'),
+        'note': TRUST + ' Fairness of tokio\'s RwLock/scheduler and real-time bounds are not decided.',
+    },
     'C17': {
         'technique': 'wiring checks: argument/field provenance of the timer set-up calls, must-reach on the registration success path, select-arm addressing, typestate of the notifier slot (assignment only when empty or after take)',
         'level': ('Decides only the wiring that is necessary for the keep-alive property: token echoed, waker armed on every '
